@@ -37,6 +37,9 @@
 (* Tasks of different snaps interleave freely (the real handlers run as    *)
 (* goroutines); a task's effect on its snap is applied atomically when it  *)
 (* finishes (only one task per snap runs at a time: chains are linear).    *)
+(* Start / StartUndo / NoUndo (and the harness's "fails on entry") happen  *)
+(* inside TaskRunner.Ensure, which holds the state lock for a whole pass   *)
+(* and starts EVERY task that can start: see "Ensure passes" below.        *)
 (***************************************************************************)
 EXTENDS Integers, Sequences, FiniteSets, TLC
 
@@ -64,10 +67,11 @@ VARIABLES
     env,       \* SnapSeq environment (retain, onClassic, boot, kernel)
     chg,       \* the change in progress / the last settled change
     clock,
+    pass,      \* [open, due]: the current TaskRunner.Ensure pass and the tasks it still has to start (see "Ensure passes")
     \* ---- TaskEngine's variables
     status, waits, lanes, hasUndo, chgOf, rdy, panicked
 
-vars == <<recs, worlds, env, chg, clock, status, waits, lanes, hasUndo, chgOf, rdy, panicked>>
+vars == <<recs, worlds, env, chg, clock, pass, status, waits, lanes, hasUndo, chgOf, rdy, panicked>>
 
 Tasks == 1..MaxTasks
 
@@ -147,6 +151,7 @@ IdleChg == [phase |-> "idle", kind |-> "none", txn |-> FALSE, sel |-> <<>>, n |-
             per |-> [s \in Snaps |-> IdlePer], status |-> "none", now |-> 0, nfail |-> 0]
 
 Idle == chg.phase = "idle"
+NoPass == [open |-> FALSE, due |-> {}]       \* no TaskRunner.Ensure pass in progress (see "Ensure passes")
 
 SelSnaps(sel) == {sel[i].snap : i \in 1..Len(sel)}
 PosOf(sel, s) == CHOOSE i \in 1..Len(sel) : sel[i].snap = s
@@ -189,6 +194,7 @@ Request(kind, txn, sel) ==
        /\ ly.nt <= MaxTasks
        /\ StartMulti(kind, txn, sel, ly, clock + 1, SpecLanes(ly, txn), SpecWaits(ly))
     /\ clock' = clock + 1
+    /\ pass' = NoPass
     /\ UNCHANGED <<recs, worlds, env>>
 
 -----------------------------------------------------------------------------
@@ -205,9 +211,26 @@ graphUnch == UNCHANGED <<waits, lanes, hasUndo, chgOf>>
 
 Running == chg.phase = "run"
 
+(* Ensure passes.  TaskRunner.Ensure holds the state lock for the whole pass, visits every task once (Go map order)  *)
+(* and starts every task that can start when visited; the post-handler sections of the goroutines (the "finish"     *)
+(* steps) run between passes.  `due` = the tasks that could start when the current pass began and have not been  *)
+(* dealt with yet: while one of them can still start, no handler finishes (it cannot get the lock).  A finish step   *)
+(* closes the pass; the first pass step after it opens the next one.  Tasks that become startable during a pass      *)
+(* (after the abort of a failure on entry, after a NoUndo) may be started in it or in the next one; two passes with  *)
+(* no finish step between them are not distinguished.  snapmgr.blockedTask: one "prerequisites" handler at a time.   *)
+IsPrereq(t) == IsSnapTask(t) /\ TaskOf(t).k = "prerequisites"
+BlockedPrereq(t) == IsPrereq(t) /\ \E u \in Tasks : u # t /\ InChange(u) /\ IsPrereq(u) /\ status[u] \in {"Doing", "Abort"}
+Startable(t) == /\ InChange(t)
+                /\ \/ status[t] = "Do" /\ ~TE!MustWait(TE!Mem, t) /\ ~BlockedPrereq(t)
+                   \/ status[t] = "Undo" /\ ~TE!MustWait(TE!Mem, t)
+PassStep(t) == pass' = [open |-> TRUE, due |-> (IF pass.open THEN pass.due ELSE {u \in Tasks : Startable(u)}) \ {t}]
+BetweenPasses == \A t \in pass.due : ~Startable(t)
+FinishStep == BetweenPasses /\ pass' = NoPass
+
 \* TaskRunner.Ensure -> run(t): Do -> Doing
 Start(t) ==
-    /\ Running /\ InChange(t) /\ status[t] = "Do" /\ ~TE!MustWait(TE!Mem, t)
+    /\ Running /\ InChange(t) /\ status[t] = "Do" /\ ~TE!MustWait(TE!Mem, t) /\ ~BlockedPrereq(t)
+    /\ PassStep(t)
     /\ ApplyMem(TE!SetSt(TE!Mem, t, "Doing"))
     /\ UNCHANGED <<recs, worlds, env, chg, clock>> /\ graphUnch
 
@@ -217,6 +240,7 @@ SetSnap(s, res) == /\ recs' = [recs EXCEPT ![s] = res.rec]
 \* the do handler of a snap's task returned nil
 FinishDoCore(t, from) ==
     /\ Running /\ IsSnapTask(t) /\ status[t] = from
+    /\ FinishStep
     /\ LET s == SnapOf(t)  i == IdxOf(t)  tk == TaskOf(t)  p == chg.per[s] IN
        /\ ~SS!DoFailsItself(recs[s], tk)
        /\ LET res == SS!DoTask(recs[s], worlds[s], p.sup, tk, chg.now) IN
@@ -243,17 +267,9 @@ Fail(t, mode) ==
        /\ \/ mode = "self" /\ status[t] \in {"Doing", "Abort"} /\ SS!DoFailsItself(recs[s], tk)
           \/ /\ p.fail.idx = 0 /\ chg.nfail < MaxFaults
              /\ \/ /\ mode = "entry" /\ status[t] = "Do" /\ ~TE!MustWait(TE!Mem, t)
-                   \* Harness artefact, excluded: a chain's FIRST task failing while it is still in Do when every task
-                   \* outside its chain is already ready.  All of the chain goes Do -> Hold, the change is marked
-                   \* ready half-way through abortTasks and a later Done -> Undo of another chain trips "change
-                   \* unexpectedly became unready" -- TaskEngine's known abort-order panic (known finding C03), which
-                   \* TLC finds here too without this conjunct.  The engine's own failure path (task in Doing) cannot
-                   \* get there, and neither can the harness: its predicate fires in the first Ensure pass in which
-                   \* the task is not held back by the serialisation of "prerequisites" tasks (snapmgr.blockedTask),
-                   \* when the other chains cannot all have finished.
-                   /\ (i = 1 => \/ \A u \in Tasks : InChange(u) => chg.owner[u] = chg.owner[t]
-                                \/ \E u \in Tasks : InChange(u) /\ chg.owner[u] # chg.owner[t] /\ ~TE!IsReadyS(status[u]))
+                   /\ ~BlockedPrereq(t)      \* the harness's predicate is consulted after snapmgr.blockedTask
                 \/ mode \in OpModesOf(t) /\ status[t] \in {"Doing", "Abort"} /\ ~SS!DoFailsItself(recs[s], tk)
+       /\ IF mode = "entry" THEN PassStep(t) ELSE FinishStep
        /\ SetSnap(s, SS!FailTask(recs[s], worlds[s], p.sup, tk, mode))
        /\ chg' = [chg EXCEPT !.per[s].fail = [idx |-> i, mode |-> mode], !.nfail = @ + 1]
     /\ ApplyMem(TE!SetSt(TE!AbortLanesTop(TE!Mem, 1, Range(lanes[t])), t, "Error"))
@@ -262,11 +278,13 @@ Fail(t, mode) ==
 \* Ensure -> run(t): Undo -> Undoing (only kinds with an undo handler)
 StartUndo(t) ==
     /\ Running /\ InChange(t) /\ status[t] = "Undo" /\ hasUndo[t] /\ ~TE!MustWait(TE!Mem, t)
+    /\ PassStep(t)
     /\ ApplyMem(TE!SetSt(TE!Mem, t, "Undoing"))
     /\ UNCHANGED <<recs, worlds, env, chg, clock>> /\ graphUnch
 
 FinishUndo(t) ==
     /\ Running /\ IsSnapTask(t) /\ status[t] = "Undoing"
+    /\ FinishStep
     /\ LET s == SnapOf(t)  i == IdxOf(t)  p == chg.per[s] IN
        SetSnap(s, SS!UndoTask(recs[s], worlds[s], p.sup, TaskOf(t), p.loc[i]))
     /\ ApplyMem(TE!SetSt(TE!Mem, t, "Undone"))
@@ -275,6 +293,7 @@ FinishUndo(t) ==
 \* Ensure: "Undo without undo handler -> Done" (after mustWait)
 NoUndo(t) ==
     /\ Running /\ InChange(t) /\ status[t] = "Undo" /\ ~hasUndo[t] /\ ~TE!MustWait(TE!Mem, t)
+    /\ PassStep(t)
     /\ ApplyMem(TE!SetSt(TE!Mem, t, "Done"))
     /\ UNCHANGED <<recs, worlds, env, chg, clock>> /\ graphUnch
 
@@ -282,11 +301,13 @@ NoUndo(t) ==
 OthersReady(t) == \A u \in Tasks : (InChange(u) /\ u # t) => TE!IsReadyS(status[u])
 FinishRR ==
     /\ Running /\ chg.rr # 0 /\ status[chg.rr] = "Doing" /\ OthersReady(chg.rr)
+    /\ FinishStep
     /\ ApplyMem(TE!SetSt(TE!Mem, chg.rr, "Done"))
     /\ UNCHANGED <<recs, worlds, env, chg, clock>> /\ graphUnch
 \* aborted in flight (only if its lane 0 is aborted, which the lane rule excludes): Retry + Abort -> tryUndo
 AbortHoldRR ==
     /\ Running /\ chg.rr # 0 /\ status[chg.rr] = "Abort"
+    /\ FinishStep
     /\ ApplyMem(TE!TryUndo(TE!Mem, chg.rr))
     /\ UNCHANGED <<recs, worlds, env, chg, clock>> /\ graphUnch
 
@@ -295,6 +316,7 @@ AllReady == \A t \in Tasks : InChange(t) => TE!IsReadyS(status[t])
 Settle ==
     /\ Running /\ AllReady
     /\ chg' = [chg EXCEPT !.phase = "idle", !.status = TE!ChgStatus(status, 1)]
+    /\ pass' = NoPass
     /\ UNCHANGED <<recs, worlds, env, clock, status, rdy, panicked>> /\ graphUnch
 
 -----------------------------------------------------------------------------
@@ -323,6 +345,7 @@ Init ==
     /\ env = [retain |-> RetainInit, onClassic |-> FALSE, boot |-> {}, kernel |-> FALSE]
     /\ chg = IdleChg
     /\ clock = 0
+    /\ pass = NoPass
     /\ status = [t \in Tasks |-> "Done"]
     /\ waits = [t \in Tasks |-> {}]
     /\ lanes = [t \in Tasks |-> <<0>>]
@@ -340,17 +363,19 @@ Init ==
 QuiescentPos(i) == \A t \in chg.first[i]..(chg.first[i + 1] - 1) : TE!IsReadyS(status[t])
 MayStep(t) == \/ ~Reduce \/ chg.nfail < MaxFaults \/ chg.owner[t] = 0
               \/ \A j \in 1..(chg.owner[t] - 1) : QuiescentPos(j)
-TaskRange == IF Running THEN {t \in 1..(IF chg.rr # 0 THEN chg.rr ELSE chg.n) : MayStep(t)} ELSE {}
+AllTasks == IF Running THEN 1..(IF chg.rr # 0 THEN chg.rr ELSE chg.n) ELSE {}
+\* (only the sections between passes are ordered: what a pass starts is forced anyway)
+TaskRange == {t \in AllTasks : MayStep(t)}
 
 RequestAny == \E kind \in (IF Idle THEN KindOpts ELSE {}) : \E txn \in (IF kind = "remove-many" THEN {FALSE} ELSE TxnOpts) :
                  \E sel \in Sels(kind) : Request(kind, txn, sel)
-StartAny == \E t \in TaskRange : Start(t)
+StartAny == \E t \in AllTasks : Start(t)
 FinishDoAny == \E t \in TaskRange : FinishDo(t)
 FinishDoAbortedAny == \E t \in TaskRange : FinishDoAborted(t)
-FailAny == \E t \in TaskRange : \E mode \in FailModes(t) : Fail(t, mode)
-StartUndoAny == \E t \in TaskRange : StartUndo(t)
+FailAny == \E t \in AllTasks : \E mode \in FailModes(t) : (mode = "entry" \/ MayStep(t)) /\ Fail(t, mode)
+StartUndoAny == \E t \in AllTasks : StartUndo(t)
 FinishUndoAny == \E t \in TaskRange : FinishUndo(t)
-NoUndoAny == \E t \in TaskRange : NoUndo(t)
+NoUndoAny == \E t \in AllTasks : NoUndo(t)
 
 Next == RequestAny \/ StartAny \/ FinishDoAny \/ FinishDoAbortedAny \/ FailAny \/ StartUndoAny \/ FinishUndoAny \/ NoUndoAny
         \/ FinishRR \/ AbortHoldRR \/ Settle
